@@ -5,6 +5,7 @@
 mod data;
 mod eval;
 mod exec;
+mod follow_child;
 mod gen_query;
 mod gen_stmt;
 mod gen_typed;
@@ -70,6 +71,9 @@ fn supervise_replay(id: &str, path: &std::path::Path) -> i32 {
 fn main() {
     run::install_panic_hook();
     let args: Vec<String> = std::env::args().skip(1).collect();
+    if args.len() >= 2 && args[0] == "--follow-child" {
+        std::process::exit(follow_child::child_main(&args[1]));
+    }
     if args.is_empty() {
         eprintln!("usage: vcheck-bin <ID> quick|thorough|--replay <file>");
         std::process::exit(2);
@@ -86,6 +90,8 @@ fn main() {
         "C12" => dispatch(props::c12::C12, &args),
         "C13" => dispatch(props::c13::C13, &args),
         "C14" => dispatch(props::c14::C14, &args),
+        "C15" => dispatch(props::c15::C15, &args),
+        "C16" => dispatch(props::c16::C16, &args),
         "C17" => dispatch(props::c17::C17, &args),
         "C20" => dispatch(props::c20::C20, &args),
         other => {
